@@ -67,7 +67,7 @@ func c14Translate(log []fskit.Op, names *c14Names, root string) []c14Step {
 	var out []c14Step
 	for _, o := range log {
 		switch o.Kind {
-		case "mkdirall", "mkdir", "chmod", "fchmod":
+		case "mkdirall", "mkdir", "chmod", "fchmod", "fstat":
 			// directory set-up and permissions do not bear on the property
 		case "createtemp":
 			out = append(out, c14Step{kind: mCreateNew, name: names.idx(o.Ret)})
